@@ -5,6 +5,7 @@ CONSTANTS
   DEV_AccountPriceNext = FALSE
   DEV_StatusWrittenBack = TRUE
   DEV_BookSharedWithData = FALSE
+  DEV_HourRounded = FALSE
   NBars = 4
   Syms = 2
   Factors = {1, 5}
